@@ -29,3 +29,142 @@ func VerifH_C04_unmarshal_untrusted_bytes() {
 	verifAssert(!crashed, "no-go-panic-or-unbounded-allocation-from-untrusted-binary-chunk")
 	verifReach("unmarshal-returned")
 }
+
+// every source text of up to 1 (quick) / 2 (thorough) arbitrary bytes, alone
+// and embedded in a statement context, goes through the real scanner, parser
+// and compiler: a closure or an error comes back, never a Go panic
+func VerifH_C04_source_bytes_never_panic() {
+	r, _ := vhNewRuntime()
+	maxn := 1
+	if verifTier() == 1 {
+		maxn = 2
+	}
+	n := verifChoose("n", maxn+1)
+	src := nondetString("src", n)
+	switch verifChoose("context", 4) {
+	case 1:
+		src = "return " + src
+	case 2:
+		src = "local x = " + src + " x()"
+	case 3:
+		src = "x = '" + src + "' .. [[" + src + "]]"
+	}
+	crashed := false
+	func() {
+		defer func() {
+			if recover() != nil {
+				crashed = true
+			}
+		}()
+		r.CompileAndLoadLuaChunk("chunk", []byte(src), TableValue(r.GlobalEnv()))
+	}()
+	verifAssert(!crashed, "no-go-panic-from-compiling-arbitrary-source-bytes")
+}
+
+// implementation limits: more locals, upvalues, constants, nested blocks and
+// call arguments than the bytecode can address give a compile error (or
+// compile and run correctly), not a panic or wrong code
+func VerifH_C04_implementation_limits() {
+	r, t := vhNewRuntime()
+	var src string
+	nlimits := 4
+	if verifTier() == 1 {
+		nlimits = 5 // the long-jump program takes a few hundred million interpreter steps
+	}
+	which := verifChoose("limit", nlimits)
+	switch which {
+	case 0: // 300 locals in one function
+		for i := 0; i < 300; i++ {
+			src += "local v" + vhItoa(i) + " = " + vhItoa(i) + "\n"
+		}
+		src += "return v0 + v299"
+	case 1: // 300 distinct string constants and 300 table fields
+		src = "local t = {"
+		for i := 0; i < 300; i++ {
+			src += "k" + vhItoa(i) + " = 'c" + vhItoa(i) + "', "
+		}
+		src += "} return t.k0 .. t.k299"
+	case 2: // 260 arguments in a call / 260 items in a table constructor
+		src = "local function f(...) local t = {...} return #t end return f("
+		for i := 0; i < 260; i++ {
+			if i > 0 {
+				src += ", "
+			}
+			src += vhItoa(i)
+		}
+		src += ")"
+	case 3: // nesting: 120 nested blocks and 120 nested parentheses
+		for i := 0; i < 120; i++ {
+			src += "do "
+		}
+		src += "x = "
+		for i := 0; i < 120; i++ {
+			src += "("
+		}
+		src += "1"
+		for i := 0; i < 120; i++ {
+			src += ")"
+		}
+		for i := 0; i < 120; i++ {
+			src += " end"
+		}
+		src += " return x"
+	case 4: // a jump over 40000 instructions
+		src = "local n = ... if n then\n"
+		for i := 0; i < 14000; i++ {
+			src += "n = n + 1\n"
+		}
+		src += "end return n"
+	}
+	crashed := false
+	var results []Value
+	var cerr, rerr error
+	func() {
+		defer func() {
+			if recover() != nil {
+				crashed = true
+			}
+		}()
+		var clos *Closure
+		clos, cerr = r.CompileAndLoadLuaChunk("limits", []byte(src), TableValue(r.GlobalEnv()))
+		if cerr == nil {
+			term := NewTerminationWith(nil, 0, true)
+			rerr = Call(t, FunctionValue(clos), []Value{IntValue(1)}, term)
+			results = term.Etc()
+		}
+	}()
+	verifAssert(!crashed, "no-go-panic-at-an-implementation-limit")
+	if crashed || cerr != nil {
+		verifReach("rejected-or-crashed")
+		return
+	}
+	verifReach("compiled")
+	verifAssert(rerr == nil && len(results) == 1, "compiled-chunk-runs")
+	if rerr != nil || len(results) != 1 {
+		return
+	}
+	switch which {
+	case 0:
+		verifAssert(vhSameValue(results[0], IntValue(299)), "accepted-chunk-computes-the-right-value")
+	case 1:
+		verifAssert(vhSameValue(results[0], StringValue("c0c299")), "accepted-chunk-computes-the-right-value")
+	case 2:
+		verifAssert(vhSameValue(results[0], IntValue(260)), "accepted-chunk-computes-the-right-value")
+	case 3:
+		verifAssert(vhSameValue(results[0], IntValue(1)), "accepted-chunk-computes-the-right-value")
+	case 4:
+		verifAssert(vhSameValue(results[0], IntValue(14001)), "accepted-chunk-computes-the-right-value")
+	}
+}
+
+func vhItoa(i int) string {
+	if i == 0 {
+		return "0"
+	}
+	s := ""
+	for i > 0 {
+		s = string(rune('0'+i%10)) + s
+		i /= 10
+	}
+	return s
+}
